@@ -244,12 +244,23 @@ def run(c, facts, tier):
     sk = emit.skeleton(facts)
     toks = emit.scheme_tokens(sk["text"]) if sk and "text" in sk else None
     c.ob("C02.skeleton", "CompiledExpression::scheme", "program skeleton", toks == spec["skeleton"]["tokens"], "policy body is the thunk passed as 3rd argument of lipe-scan, init/fini the 1st/3rd thunks of dynamic-wind, definitions the let* bindings: %s" % (toks == spec["skeleton"]["tokens"]), facts={"lipe_scan_args": sk.get("lipe_scan_args") if sk else None})
-    comp = None
-    for k, fn in facts.fns.items():
-        if fn.name == "compile" and fn.impl is None and not fn.test and fn.node["vis"] == "pub":
-            comp = fn
-    lits = find_all(comp.body, lambda n: n.get("k") == "struct" and n["segs"][-1] == "CompiledExpression")
-    want_f = {"policy_body": "policy_body", "options": "options", "modules": "manager.modules().into()", "definitions": "manager.definitions()", "initialization": "manager.initialization()", "terminate": "manager.terminate()", "io_map": "manager.printer_map()"}
-    got_f = {f["name"]: src(f["e"]) for f in lits[0]["fields"]} if lits else {}
-    c.ob("C02.skeleton", comp.key, "each part of the compiled expression comes from the right source", got_f == want_f, "fields %s" % got_f)
+    from .. import toplevel
+
+    T_ = toplevel.summary(facts)
+    comp = T_["fn"]
+    want_f = {"policy_body": "<buffer handed to compile()>", "options": "<rendered thread count>", "modules": "M.modules()", "definitions": "M.definitions()", "initialization": "M.initialization()", "terminate": "M.terminate()", "io_map": "M.printer_map()"}
+    got_f, okf = {}, bool(T_["paths"])
+    for p_ in T_["paths"]:
+        if p_["outcome"] != "ok" or not p_["fields"]:
+            continue
+        mgrs_ = {toplevel.ctor_of(c_["args"][1]) for c_ in p_["calls"] if c_["method"] == "compile" and len(c_["args"]) >= 2}
+        for fname, meth in (("modules", "modules"), ("definitions", "definitions"), ("initialization", "initialization"), ("terminate", "terminate"), ("io_map", "printer_map")):
+            v_ = p_["fields"].get(fname)
+            hit = isinstance(v_, dict) and v_.get("kind") == "mcall" and v_.get("method") == meth and {toplevel.ctor_of(v_)} == mgrs_
+            got_f.setdefault(fname, set()).add("M.%s()" % meth if hit else emit.canon(v_)[:60] if isinstance(v_, dict) else str(v_))
+            okf = okf and hit
+        if set(p_["fields"]) != set(want_f):
+            okf = False
+    got_f = {k_: sorted(v_) for k_, v_ in got_f.items()}
+    c.ob("C02.skeleton", comp.key, "each part of the compiled expression comes from the right source", okf, "on every path modules/definitions/initialization/terminate/io_map are read from the manager M the expression was compiled with: %s" % got_f)
     c.control("C02.cmp", CMP["GreaterThan"] == ">" and CMP["LesserThan"] == "<", "operator table distinguishes > and <")
